@@ -23,7 +23,7 @@ type c01 struct{}
 func (c01) ID() string    { return "C01" }
 func (c01) Level() string { return "exploration" }
 func (c01) Rule() string {
-	return "(a) every attribute path of the schema (read from /repo/schema/compose-spec.json at run time) x 17 YAML node kinds (incl. two lists repeating their keys) placed at that path, as a single file, as a second document, as an override of the valid witness, as the base under a valid override, in an extended base, in an included file, and against the full corpus document as override / overridden / extending / extended / including / included; every pair of kinds as (base, override) at the same path; (b) the single-file matrix under each of 10 load options flipped alone and all together (thorough: more option sets); (b') every pair of valid service attribute values of the three full corpus documents (whole, and cut down to each single child / grandchild of a mapping) on one service; (c) YAML alias/anchor cycles and merge keys, extends, include (every spelling of every edge incl. multi-path entries) and depends_on cycles; (d) every {present, absent, directory-in-place} state vector of the files referenced by 5 scenarios (override, extends chain, nested include with env files, env_file/label_file, cli .env); (e) every distance-1 byte edit (delete, insert/replace by 18 significant bytes) of 6 seed documents. Oracle: exactly one of project/error, no panic, no process death, no hang; cycles and missing required files are errors naming the file. distinct = distinct (position, kind, route, options) outcomes"
+	return "(a) every attribute path of the schema (read from /repo/schema/compose-spec.json at run time) x 17 YAML node kinds (incl. two lists repeating their keys) placed at that path, as a single file, as a second document, as an override of the valid witness, as the base under a valid override, in an extended base, in an included file, and against the full corpus document as override / overridden / extending / extended / including / included; every pair of kinds as (base, override) at the same path; the tags !reset / !override on 6 node shapes at every path and at the document root (single file, override of the full document, second document); (b) the single-file matrix under each of 10 load options flipped alone and all together (thorough: more option sets); (b') every pair of valid service attribute values of the three full corpus documents (whole, and cut down to each single child / grandchild of a mapping) on one service; (c) YAML alias/anchor cycles and merge keys, extends, include (every spelling of every edge incl. multi-path entries) and depends_on cycles; (d) every {present, absent, directory-in-place} state vector of the files referenced by 5 scenarios (override, extends chain, nested include with env files, env_file/label_file, cli .env); (e) every distance-1 byte edit (delete, insert/replace by 18 significant bytes) of 6 seed documents. Oracle: exactly one of project/error, no panic, no process death, no hang; cycles and missing required files are errors naming the file. distinct = distinct (position, kind, route, options) outcomes"
 }
 func (c01) Assumptions() []string {
 	return []string{
@@ -340,12 +340,68 @@ func (c01) Run(c *core.Ctx) {
 			}
 		}
 	}
+	c01tags(c, paths)
 	c01validPairs(c)
 	c01cycles(c)
 	dependsOnDigraphs(c, "depends_on/")
 	c01refcycles(c)
 	c01files(c)
 	c01bytes(c)
+}
+
+// c01tags: the merge tags !reset and !override on a node of every kind at every schema path and at the document root,
+// in a single file, in an override of the full corpus document, and in a second document.
+func c01tags(c *core.Ctx, paths [][]string) {
+	vals := []string{"", "null", "x", "[a]", "{k: v}", "{}"}
+	all := append([][]string{nil}, paths...)
+	for _, p := range all {
+		ps := strings.Join(p, ".")
+		if p == nil {
+			ps = "<root>"
+		}
+		for _, tag := range []string{"!reset", "!override"} {
+			for vi, v := range vals {
+				var text string
+				if p == nil {
+					text = tag + " " + v + "\n"
+				} else {
+					y := mapToYAML(c01docAt(p, "@TAG@"))
+					if !strings.Contains(y, "'@TAG@'") && !strings.Contains(y, "\"@TAG@\"") && !strings.Contains(y, "@TAG@") {
+						continue
+					}
+					y = strings.Replace(y, "'@TAG@'", "@TAG@", 1)
+					y = strings.Replace(y, "\"@TAG@\"", "@TAG@", 1)
+					text = strings.Replace(y, "@TAG@", tag+" "+v, 1)
+				}
+				for _, route := range []string{"single", "over-rich", "second-doc"} {
+					if c.Expired() {
+						return
+					}
+					text, route := text, route
+					id := fmt.Sprintf("tag/%s/%s/%d/%s", ps, tag, vi, route)
+					c.Do(id, func() core.Outcome {
+						files := map[string]string{}
+						main := []string{"compose.yaml"}
+						switch route {
+						case "single":
+							files["compose.yaml"] = text
+						case "over-rich":
+							files["compose.yaml"] = corpusRich
+							files["over.yaml"] = strings.NewReplacer("\n    s:", "\n    web:", "\n    n:", "\n    front:", "\n    v:", "\n    data:").Replace(text)
+							main = append(main, "over.yaml")
+						case "second-doc":
+							files["compose.yaml"] = "services:\n  s:\n    image: i\n---\n" + text
+						}
+						out := c01total(id, &Scn{Files: files, Main: main, Env: map[string]string{"U": "u"}, InMem: true}, "default")
+						if out.Viol == nil {
+							out.Sample = nil
+						}
+						return out
+					})
+				}
+			}
+		}
+	}
 }
 
 // c01validPairs: every pair of valid service attribute values taken from the three full corpus documents - each value
